@@ -296,16 +296,18 @@ def pvTarget (op : MOp) (splitted : List String) : Option (MOp × List String) :
   | .le => (pvBump splitted).map fun l => (MOp.lt, l)
   | o => some (o, splitted)
 
-/-- `_normalize_python_version_specifier` (single.py:432-454, after the `fix:`s) -/
+/-- `_normalize_python_version_specifier` (single.py, after the `fix:`s); `none` = `None`: the operand cannot be
+    re-read as a python_full_version constraint and the atom stays unmerged -/
 def normalizePythonVersion (a : Atom) : Option ASpec :=
   if a.op == .in_ || a.op == .notIn then some a.spec
   else
     let s0 := (splitDots a.value).map trimS
-    if s0.contains "*" then some a.spec
+    if s0.contains "*" then (if s0.length ≤ 3 then some a.spec else none)
     else
     -- the `fix:`: python_version has two components, "3.8.0" compares like "3.8" (not for `~=`)
     let s1 := if a.op != .compat then dropZeroSegs s0 else s0
-    if s1.length > 2 then some a.spec
+    -- the `fix:`: more than two significant components, or a pre/post/dev segment: not a full-version constraint
+    if s1.length > 2 || !(s1.all fun p => (SpecParse.natOfDigits? p.toList).isSome) then none
     else
       let s2 := if s1.length == 1 && a.op != .compat then s1 ++ ["0"] else s1
       (pvTarget a.op s2).bind fun (o, l) => (parseSpecOpt (o.str ++ ".".intercalate l)).map .ver
@@ -322,8 +324,16 @@ def mergePythonVersion (m1 m2 : Atom) (isAnd : Bool) : Option M :=
       if merged.beq ns then some (.expr vm)
       else fromSpecifier "python_full_version" merged
 
-/-- `_merge_single_markers` (single.py:362-402); `none` = `None` -/
-def mergeSingle (m1 m2 : Atom) (isAnd : Bool) : Option M :=
+/-- `_has_exact_specifier` (after the `fix:`): a literal-on-the-left version atom is evaluated as
+    `Specifier(op + env value).contains(literal)`, which is the mirrored forward comparison only for
+    the six ordering/equality operators on a plain release literal -/
+def _root_.DepLogic.Atom.exactView (a : Atom) : Bool :=
+  if !a.reversed || !versionLikeNames.contains a.name then true
+  else if a.op == .in_ || a.op == .notIn then true
+  else a.op != .compat && (splitDots a.value).all fun p => (SpecParse.natOfDigits? p.toList).isSome
+
+/-- `_merge_single_markers` past the exact-specifier guard -/
+def mergeSingleCore (m1 m2 : Atom) (isAnd : Bool) : Option M :=
   if (m1.name == "python_version" && m2.name == "python_full_version") ||
      (m1.name == "python_full_version" && m2.name == "python_version") then
     mergePythonVersion m1 m2 isAnd
@@ -339,6 +349,10 @@ def mergeSingle (m1 m2 : Atom) (isAnd : Bool) : Option M :=
       if r.beq m1.spec then some (.expr m1)
       else if r.beq m2.spec then some (.expr m2)
       else fromSpecifier m1.name r
+
+/-- `_merge_single_markers` (single.py:378-422); `none` = `None` -/
+def mergeSingle (m1 m2 : Atom) (isAnd : Bool) : Option M :=
+  if m1.exactView && m2.exactView then mergeSingleCore m1 m2 isAnd else none
 
 /-! ### the engine -/
 
